@@ -710,7 +710,7 @@ pub fn run_replay(check: &dyn Check, path: &Path) -> i32 {
         sh.panic_violation("uncaught", &p, "");
     }
     check.shard_end(&mut sh);
-    let _ = std::fs::remove_dir_all(&workdir);
+    if std::env::var("VERIF_KEEP").is_err() { let _ = std::fs::remove_dir_all(&workdir); }
     if sh.violations.is_empty() {
         println!("no violation reproduced");
         return 0;
